@@ -109,7 +109,7 @@ Section RecB.
   Proof.
     induction n as [f t0 t1 ks IH] using call_ind'. intros i dp stk ri ou hk Hlen Hd Hwf.
     pose proof (recB_kids ks IH) as HK.
-    apply wf_kids in Hwf. destruct Hwf as (H01 & H1 & _ & Hwk & _).
+    apply wf_kids in Hwf. destruct Hwf as (H01 & H1 & Hwk & _).
     cbn [height] in Hlen, Hd. fold (fheight ks) in Hlen, Hd.
     assert (Hl : (length stk < 1024)%nat) by lia.
     assert (Hdp : (Z.to_N (gdepth c) <=? dp)%N = false) by lia.
@@ -135,7 +135,7 @@ End RecB.
 Lemma selB_tprune c : classB c -> forall n, wf_call (threshold c) n -> selB c n = tprune c (threshold c) n.
 Proof.
   intros (Htr & _). induction n as [f t0 t1 ks IH] using call_ind'. intro Hwf.
-  apply wf_kids in Hwf. destruct Hwf as (H01 & H1 & Hne & Hwk & _).
+  apply wf_kids in Hwf. destruct Hwf as (H01 & H1 & Hwk & _).
   cbn [selB tprune]. rewrite (Htr f). cbn [btrig q_time q_caller q_trace].
   assert (E : flat_map (selB c) ks = flat_map (tprune c (threshold c)) ks).
   { clear -IH Hwk. induction IH as [|k ks Hk _ IHks]; [reflexivity|]. inversion Hwk; subst.
